@@ -452,6 +452,12 @@ def discrete_u_cases(fam, tier, seed):
                         (2 ** 30, 2 ** 20, 2 ** 20), (60, 30, 30), (60, 25, 35), (45, 22, 23), (200, 22, 100), (200, 20, 100), (200, 18, 100), (500, 250, 250), (10 ** 4, 30, 300), (10 ** 5, 200, 50000),
                         (10, 5, 5), (40, 20, 20), (41, 20, 21), (20, 0, 10), (20, 20, 10), (20, 10, 0), (20, 10, 20), (1, 1, 1), (0, 0, 0)]:
             add([N, K, n], ('law', 'c03', 'switch'))
+        # H2PE with a small variance: consecutive K sweep the fractional part of the mean across the mode (the hat
+        # centre, the acceptance reference point and the HIN / H2PE choice are integer functions of the parameters)
+        for K in range(100, 130):
+            add([1000, K, 100], ('law', 'c03', 'switch'))
+        for N, K, n in [(1000, 895, 100), (1000, 895, 900), (1000, 105, 900), (1000, 84, 125), (1000, 140, 75), (400, 57, 101), (5000, 333, 211)]:
+            add([N, K, n], ('law', 'c03', 'switch'))
         for _ in range(R):
             N = int(rnd.loguniform(2, 2.0 ** 40)) if th or rnd.below(2) else int(rnd.loguniform(2, 1e6))
             K = int(rnd.unit() * (N + 1))
